@@ -105,7 +105,14 @@ def dense_polys(N):
         s_ = ws[0] * x[0]
         for i in range(1, N): s_ = s_ + ws[i] * x[i]
         return s_
-    fs = [lambda x: lin(x) ** 5 + lin(x) ** 2, lambda x: (lin(x) * lin(x) + 1) * lin(x) * x[0] * x[N - 1] + x[0] ** 4 * x[N - 1]]
+    def horner(x):
+        # a Horner scheme with in-place updates and leading coefficients 1, as user code writes it: p^3 + 3 p + x_0 x_{N-1} with p = x_0 + sum w_i x_i.
+        # (an operator that returns its operand for the neutral element would let the updates overwrite the argument)
+        p = 1 * x[0]
+        for i in range(1, N): p += ws[i] * x[i]
+        q = p * 1; q *= p; q += 3; q *= p
+        return q + x[0] * x[N - 1]
+    fs = [lambda x: lin(x) ** 5 + lin(x) ** 2, lambda x: (lin(x) * lin(x) + 1) * lin(x) * x[0] * x[N - 1] + x[0] ** 4 * x[N - 1], horner]
     return fs
 
 
@@ -257,6 +264,46 @@ def c16(rng, tier):
             for n in range(0, 4):
                 got = float(g(numpy.array([x]), n=n)[0]); want = float(getattr(numpy, name)(x)) if n == 0 else 0.0
                 yield {'function': name, 'n': n, 'x': x}, (None if got == want else 'got %r expected %r' % (got, want))
+    # high orders: "every order n >= 0".  Closed forms with factorials / alternating products are exactly where integer overflow or a wrong
+    # sign pattern shows only beyond n ~ 20.  One fixed interior point per function, oracle mpmath at 80 digits (polygamma directly for
+    # gammaln / psi, whose numerical differentiation is slow); relative tolerance 1e-6 (the condition of the closed forms grows with n).
+    mp.mp.dps = 80
+    HI = {'exp': (mp.exp, 0.7), 'exp2': (lambda v: mp.mpf(2) ** v, 0.7), 'expm1': (mp.expm1, 0.7), 'log': (mp.log, 1.5), 'log2': (lambda v: mp.log(v, 2), 1.5), 'log10': (mp.log10, 1.5), 'log1p': (mp.log1p, 0.5),
+          'sqrt': (mp.sqrt, 1.5), 'square': (lambda v: v * v, 0.7), 'negative': (lambda v: -v, 0.7), 'reciprocal': (lambda v: 1 / v, 1.5), 'sin': (mp.sin, 0.7), 'cos': (mp.cos, 0.7), 'arcsin': (mp.asin, 0.4),
+          'arccos': (mp.acos, 0.4), 'arctan': (mp.atan, 0.7), 'sinh': (mp.sinh, 0.7), 'cosh': (mp.cosh, 0.7), 'arcsinh': (mp.asinh, 0.7), 'arccosh': (mp.acosh, 1.8), 'arctanh': (mp.atanh, 0.4), 'erf': (mp.erf, 0.7),
+          'erfi': (mp.erfi, 0.7), 'gammaln': (None, 1.7), 'psi': (None, 1.7), 'tan': (mp.tan, 0.7), 'tanh': (mp.tanh, 0.7)}
+    for name, (f, x) in HI.items():
+        if not hasattr(nd, name): continue
+        g = getattr(nd, name)
+        for n in ((12, 23) if tier == 'quick' else (16, 21, 22, 23, 30, 40)):
+            case = {'function': name, 'n': n, 'x': x, 'pass': 'high order'}
+            try:
+                with numpy.errstate(all='ignore'): got = float(g(numpy.array([x]), n=n)[0])
+            except Exception as e: yield case, 'raises %s: %s' % (type(e).__name__, str(e)[:100]); continue
+            if name == 'gammaln': want = float(mp.psi(n - 1, mp.mpf(x)))
+            elif name == 'psi': want = float(mp.psi(n, mp.mpf(x)))
+            else: want = float(mp.diff(f, mp.mpf(x), n))
+            ok = abs(got - want) <= 1e-6 * max(1.0, abs(want))
+            yield case, (None if ok else 'n-th derivative at high order: got %r, mpmath gives %r' % (got, want))
+    mp.mp.dps = 50
+    # integer-typed points are points of the domain too: for n >= 1 the value must be the one at the same point in floating point.  A
+    # function may refuse integer dtype loudly (NumPy itself refuses integer ** negative integer); a silently different value is a
+    # violation.  n = 0 is the NumPy/SciPy function by definition (numpy.reciprocal of integers is integer division) and is not compared.
+    for name in sorted(dir(nd)):
+        g = getattr(nd, name)
+        if not hasattr(g, 'extras'): continue
+        params = {0: (), 1: (1,), 2: (1.5, 0.5)}.get(g.extras)
+        if params is None or name == 'clip': continue
+        for pts in (numpy.array([2, 3]), 2, numpy.array([[2, 3], [4, 5]])):
+            for n in range(1, 4):
+                case = {'function': name, 'n': n, 'x': str(pts).replace('\n', ''), 'dtype': 'integer'}
+                with numpy.errstate(all='ignore'):
+                    try: want = g(*params, numpy.asarray(pts, dtype=float), n=n)
+                    except Exception: continue
+                    try: got = g(*params, pts, n=n)
+                    except Exception: yield case, None; continue
+                ok = numpy.shape(got) == numpy.shape(want) and numpy.allclose(got, want, rtol=1e-12, atol=1e-300, equal_nan=True)
+                yield case, (None if ok else 'at an integer-typed point the %d-th derivative is %s, at the same point in floating point %s' % (n, str(got)[:40], str(want)[:40]))
     # negative order must be refused, order 0 is the function itself with out=
     try:
         nd.exp(numpy.array([0.5]), n=-1); yield {'function': 'exp', 'n': -1}, 'negative order accepted'
